@@ -51,6 +51,9 @@ func draw(t *rapid.T) Case {
 	st := &ref.State{Root: doc.Clone()}
 	var ops []ref.Op
 	n := gen.Uniform(t, 0, 8, "nops")
+	if gen.OneIn(t, 15, "longseq") {
+		n = gen.Uniform(t, 9, 24, "nopslong")
+	}
 	for i := 0; i < n; i++ {
 		var op ref.Op
 		for try := 0; try < 4; try++ {
